@@ -47,6 +47,9 @@ use vls_protocol_signer::approver::Approve;
 pub const HARD: u32 = 0x8000_0000;
 pub const NET: Network = Network::Testnet;
 
+/// xpub id that stands for the node's own account xpub (never used in an `X` descriptor)
+pub const OWN_XPUB: u32 = 9;
+
 pub const TAGS: [&str; 10] = [
     "policy-onchain-format-standard",
     "policy-onchain-max-size",
@@ -400,6 +403,9 @@ fn truth(spec: &TxSpec, i: usize) -> Truth {
         'p'
     } else if matches!(&o.desc, Desc::X(j, p, t) if cfg.xpubs.contains(j) && *p == path && "wkt".contains(*t)) {
         'y'
+    } else if cfg.xpubs.contains(&OWN_XPUB) && matches!(&o.desc, Desc::W(p, t) if *p == path && "wkt".contains(*t)) {
+        // the operator allowlisted the node's own account xpub: wallet scripts are also xpub-derivable
+        'y'
     } else {
         'n'
     };
@@ -466,11 +472,14 @@ pub fn key_script(pk: &PublicKey, ty: char) -> ScriptBuf {
         }
     }
 }
-fn prev_script(ty: char, i: usize) -> ScriptBuf {
+/// previous outputs belong to the node's wallet (key at path [1000 + i]) so that the flow can really sign them
+fn prev_script(node: &Node, ty: char, i: usize) -> ScriptBuf {
     if ty == 'i' {
         return ScriptBuf::from_bytes(vec![0x6a, 0x01, i as u8]);
     }
-    key_script(&foreign_key(1000 + i as u32), ty)
+    let secp = Secp256k1::new();
+    let x = node.get_account_extended_key().derive_priv(&secp, &to_dp(&[1000 + i as u32])).unwrap();
+    key_script(&PublicKey::from_secret_key(&secp, &x.private_key), ty)
 }
 
 struct Env {
@@ -561,7 +570,7 @@ fn make_env(cfg: &Cfg, limit: u64, ty: &str) -> Env {
     let node0 = Node::new(config, &seed, vec![], services.clone());
     let mut allow: Vec<Allowable> = cfg.allow.iter().filter_map(|s| allow_script(&node0, s)).map(Allowable::Script).collect();
     for j in &cfg.xpubs {
-        allow.push(Allowable::XPub(ext_xpub(*j)));
+        allow.push(Allowable::XPub(if *j == OWN_XPUB { node0.get_account_extended_pubkey() } else { ext_xpub(*j) }));
     }
     let node = Arc::new(Node::new(config, &seed, allow, services));
     Env {
@@ -658,7 +667,7 @@ impl C08Onchain {
             .prev
             .iter()
             .enumerate()
-            .map(|(i, (v, t))| TxOut { value: Amount::from_sat(*v), script_pubkey: prev_script(*t, i) })
+            .map(|(i, (v, t))| TxOut { value: Amount::from_sat(*v), script_pubkey: prev_script(&node, *t, i) })
             .collect();
         let ucks: Vec<Option<(SecretKey, Vec<Vec<u8>>)>> = spec
             .uck
@@ -678,6 +687,7 @@ impl C08Onchain {
                 (None, Some(approver.handle_proposed_onchain(&node2, &tx, &spec.segwit, &prev_outs, &ucks, &opaths)))
             }
         }));
+        let mut flow: Option<&'static str> = None;
         let (class, unknown_reported): (String, Option<Vec<usize>>) = match r {
             Err(_) => {
                 env.dead = true;
@@ -690,6 +700,7 @@ impl C08Onchain {
                 _ => (format!("err:{}", ve.tag), None),
             },
             Ok((_, Some(res))) => {
+                flow = Some(match &res { Ok(true) => "signed", Ok(false) => "declined", Err(_) => "refused" });
                 let seen = approver.seen.lock().unwrap().clone();
                 match (res, seen) {
                     (Ok(b), Some(ix)) => {
@@ -709,6 +720,32 @@ impl C08Onchain {
             }
             Ok((None, None)) => unreachable!(),
         };
+        // Ok(true): the caller now signs.  Sign the inputs the wallet can sign (p2wpkh / p2sh-p2wpkh / p2pkh).
+        let mut flow_signed = false;
+        if flow == Some("signed") {
+            let n = spec.uck.len().min(prev_outs.len()).min(spec.n_in);
+            let ipaths: Vec<DerivationPath> = (0..n)
+                .map(|i| if "wsk".contains(spec.prev[i].1) { to_dp(&[1000 + i as u32]) } else { to_dp(&[]) })
+                .collect();
+            let node3 = node.clone();
+            let sr = std::panic::catch_unwind(std::panic::AssertUnwindSafe(|| {
+                node3.unchecked_sign_onchain_tx(&tx, &ipaths, &prev_outs[..n], vec![None; n])
+            }));
+            match sr {
+                Ok(Ok(wit)) => {
+                    flow_signed = true;
+                    co.tags.insert(format!("flow:signed:{}", if wit.iter().any(|w| !w.is_empty()) { "with-signatures" } else { "nothing-to-sign" }));
+                }
+                Ok(Err(e)) => { co.tags.insert(format!("flow:sign-error {}", e.message().chars().take(40).collect::<String>())); }
+                Err(_) => {
+                    env.dead = true;
+                    co.tags.insert("flow:sign-panic".into());
+                }
+            }
+        }
+        if let Some(f) = flow {
+            co.tags.insert(format!("flow:{}", f));
+        }
         let vcd = vc_digest(&node.get_state().fee_velocity_control);
         co.tags.insert(format!("res:{}", class.split(':').next().unwrap()));
         if class.starts_with("err:policy") {
@@ -730,7 +767,8 @@ impl C08Onchain {
                 }
             }
         }
-        if class == "ok" {
+        let passed_ok = class == "ok";
+        if passed_ok || flow_signed {
             let sum_in: u128 = spec.prev.iter().map(|(v, _)| *v as u128).sum();
             let mut ben: u128 = 0;
             for (i, c) in classes.iter().enumerate() {
@@ -744,6 +782,8 @@ impl C08Onchain {
             if strict {
                 for (i, c) in classes.iter().enumerate() {
                     match c {
+                        // an Unknown output may be there if (and only if) it was reported and the approver accepted it
+                        Class::Unknown if !passed_ok => {}
                         Class::Unknown | Class::Bogus | Class::Fault => co.violations.push(Violation {
                             kind: "unknown-output-accepted".into(),
                             desc: format!("output {} ({} sat, {}) is neither wallet, allowlisted nor a funded channel ({:?}) but the tx was accepted", i, spec.outs[i].value, spec.outs[i].desc.to_string(), c),
@@ -772,7 +812,8 @@ impl C08Onchain {
                         w += 77 + match u { None => 33u128, Some(l) => l.iter().map(|x| 1 + *x as u128).sum() };
                     }
                 }
-                if w > 0 && (nb * 1000 + 999) / w > env.cfg.max_feerate as u128 {
+                // (no fee bound applies to a tx whose unknown destinations were explicitly approved)
+                if passed_ok && w > 0 && (nb * 1000 + 999) / w > env.cfg.max_feerate as u128 {
                     co.violations.push(Violation {
                         kind: "onchain-fee-exceeds-bound".into(),
                         desc: format!("accepted: inputs {} - beneficial {} = {} sat over weight {} is {} sat/kw > max {}", sum_in, ben, nb, w, (nb * 1000 + 999) / w, env.cfg.max_feerate),
@@ -789,8 +830,10 @@ impl C08Onchain {
                     (v.limit, (v.buckets.len() as u64 - 1) * v.bucket_interval as u64)
                 };
                 let msat = (nb * 1000).min(u64::MAX as u128) as u64;
-                env.log.push((spec.now, msat));
-                if limit != u64::MAX {
+                if passed_ok {
+                    env.log.push((spec.now, msat));
+                }
+                if passed_ok && limit != u64::MAX {
                     if let Some((t0, sum)) = window_violation(&env.log, wlen, limit) {
                         co.violations.push(Violation { kind: "fee-velocity-exceeded".into(), desc: format!("fees of {} msat approved within window [{}, {}] with limit {}", sum, t0, t0 + wlen, limit), at });
                     }
@@ -798,9 +841,10 @@ impl C08Onchain {
             }
         }
         let _ = env.spec;
+        let fl = flow.map(|f| format!(" flow={}", f)).unwrap_or_default();
         match (&class[..], unknown_reported) {
-            ("unknown", Some(ix)) => format!("unknown [{}] | {}", ix.iter().map(|x| x.to_string()).collect::<Vec<_>>().join(","), vcd),
-            _ => format!("{} | {}", class, vcd),
+            ("unknown", Some(ix)) => format!("unknown [{}]{} | {}", ix.iter().map(|x| x.to_string()).collect::<Vec<_>>().join(","), fl, vcd),
+            _ => format!("{}{} | {}", class, fl, vcd),
         }
     }
 }
@@ -886,7 +930,7 @@ fn gen_tx(rng: &mut Rng, cfg: &Cfg, now: u64) -> TxSpec {
             let p = if cfg.style == 'l' && rng.chance(1, 3) { vec![rng.below(3) as u32, rng.below(3) as u32] } else { vec![rng.below(6) as u32] };
             let ty = *rng.pick(&['w', 'w', 'k', 't', 's']);
             let path = if rng.chance(1, 5) { wrong_path(rng, &p, cfg.style) } else { p.clone() };
-            OutSpec { desc: Desc::X(j, p, ty), path, value }
+            OutSpec { desc: if j == OWN_XPUB { Desc::W(p, ty) } else { Desc::X(j, p, ty) }, path, value }
         } else if k < 18 && chans.len() < 3 {
             // channel funding output
             let c = chans.len();
@@ -974,6 +1018,103 @@ fn gen_tx(rng: &mut Rng, cfg: &Cfg, now: u64) -> TxSpec {
     spec
 }
 
+
+/// weight lower bound of a spec (the formula of check_onchain_tx, recomputed here for the generators)
+fn spec_weight(spec: &TxSpec) -> u128 {
+    let mut w = spec.dummy_tx().weight().to_wu() as u128;
+    for (i, u) in spec.uck.iter().enumerate() {
+        if spec.prev.get(i).map(|(_, t)| *t != 'i').unwrap_or(false) {
+            w += 77 + match u { None => 33u128, Some(l) => l.iter().map(|x| 1 + *x as u128).sum() };
+        }
+    }
+    w
+}
+
+/// split `total` over the inputs of the spec (types already chosen)
+fn fill_inputs(rng: &mut Rng, spec: &mut TxSpec, types: &[char], total: u128) {
+    let n = types.len();
+    let mut rest = total.min(u64::MAX as u128 * n as u128);
+    for (i, t) in types.iter().enumerate() {
+        let v = if i + 1 == n { rest.min(u64::MAX as u128) } else { (rng.below(1001) as u128 * rest / 1000).min(u64::MAX as u128) };
+        rest -= v;
+        spec.prev.push((v as u64, *t));
+    }
+}
+
+/// outputs that are at the same time wallet-derivable (path given) and allowlisted (own address allowlisted
+/// by script, or the node's own xpub allowlisted); inputs around Σoutputs and 2·Σoutputs: an output must be
+/// credited exactly once
+fn gen_dual_tx(rng: &mut Rng, cfg: &Cfg, now: u64) -> Option<TxSpec> {
+    let own: Vec<Desc> = cfg.allow.iter().filter_map(|a| Desc::parse(a)).filter(|d| matches!(d, Desc::W(p, t) if "wst".contains(*t) && (cfg.style == 'l' || p.len() == 1))).collect();
+    let own_xpub = cfg.xpubs.contains(&OWN_XPUB);
+    if own.is_empty() && !own_xpub {
+        return None;
+    }
+    let n_out = rng.range(1, 3) as usize;
+    let mut outs = vec![];
+    for _ in 0..n_out {
+        let d = if !own.is_empty() && (!own_xpub || rng.chance(1, 2)) { rng.pick(&own[..]).clone() } else { Desc::W(vec![rng.below(6) as u32], *rng.pick(&['w', 't', 'w', 's'])) };
+        let path = match &d { Desc::W(p, _) => p.clone(), _ => vec![] };
+        outs.push(OutSpec { desc: d, path, value: rng.range(10_000, 5_000_000) });
+    }
+    if rng.chance(1, 4) {
+        outs.push(OutSpec { desc: Desc::W(vec![7], 'w'), path: vec![7], value: rng.range(1_000, 100_000) });
+    }
+    let n_in = rng.range(1, 3) as usize;
+    let mut spec = TxSpec {
+        cfg: cfg.clone(), now, version: 2, ap: if rng.chance(1, 5) { 1 } else { 0 },
+        segwit: vec![true; n_in], n_in, prev: vec![], uck: vec![None; n_in], n_opaths: outs.len(), chans: vec![], outs,
+    };
+    let types: Vec<char> = (0..n_in).map(|_| *rng.pick(&['w', 'w', 's', 't'])).collect();
+    let sum: u128 = spec.outs.iter().map(|o| o.value as u128).sum();
+    spec.prev = types.iter().map(|t| (0u64, *t)).collect();
+    let w = spec_weight(&spec);
+    spec.prev.clear();
+    let edge = (cfg.max_feerate as u128 * w) / 1000;
+    let fee = match rng.below(6) { 0 => 0, 1 => edge, 2 => edge + 1, 3 => edge.saturating_sub(1), 4 => (253 * w) / 1000, _ => rng.below(edge as u64 + 2) as u128 };
+    let k = match rng.below(5) { 0 => 1, 1 | 2 | 3 => 2, _ => 3 };
+    fill_inputs(rng, &mut spec, &types, k * sum + fee);
+    Some(spec)
+}
+
+/// one transaction that funds a validated channel, pays an unknown destination and (often) spends a non-segwit
+/// input, through the approver flow (approving or declining)
+fn gen_flow_tx(rng: &mut Rng, cfg: &Cfg, now: u64) -> TxSpec {
+    let cv = rng.range(100_000, 5_000_000);
+    let mut outs = vec![];
+    let mut chans = vec![];
+    let order = rng.below(3);
+    let change = OutSpec { desc: Desc::W(vec![1], 'w'), path: vec![1], value: rng.range(10_000, 2_000_000) };
+    let unknown = OutSpec { desc: Desc::F(20 + rng.below(5) as u32, *rng.pick(&['w', 's', 't'])), path: vec![], value: rng.range(1_000, 1_000_000) };
+    let funding = OutSpec { desc: Desc::C(0, false), path: vec![], value: cv };
+    let seq: Vec<OutSpec> = match order { 0 => vec![change, unknown, funding], 1 => vec![funding, change, unknown], _ => vec![unknown, funding, change] };
+    for (i, o) in seq.into_iter().enumerate() {
+        if matches!(o.desc, Desc::C(..)) {
+            let (push, nhc, outbound) = match rng.below(12) { 0 => (5_000_000.min(cv * 1000), 1, true), 1 => (0, 0, true), 2 => (0, 1, false), _ => (0, 1, true) };
+            chans.push(ChanSpec { vout: i, value: cv, outbound, push_msat: push, nhc, real: false });
+        }
+        outs.push(o);
+    }
+    if rng.chance(1, 4) {
+        outs.push(OutSpec { desc: Desc::F(30, 'w'), path: vec![], value: rng.range(1_000, 50_000) });
+    }
+    let n_in = rng.range(1, 3) as usize;
+    // a non-segwit input: p2pkh, or p2sh-p2wpkh flagged `false` by the caller
+    let types: Vec<char> = (0..n_in).map(|_| *rng.pick(&['w', 'w', 's', 'k'])).collect();
+    let mut segwit: Vec<bool> = types.iter().map(|t| *t == 'w').collect();
+    if rng.chance(1, 3) {
+        segwit = vec![true; n_in];
+    }
+    let mut spec = TxSpec {
+        cfg: cfg.clone(), now, version: 2, ap: match rng.below(6) { 0 => 0, 1 | 2 => 2, _ => 1 },
+        segwit, n_in, prev: vec![], uck: vec![None; n_in], n_opaths: outs.len(), chans, outs,
+    };
+    let sum: u128 = spec.outs.iter().map(|o| o.value as u128).sum();
+    let fee = rng.range(200, 3_000) as u128;
+    fill_inputs(rng, &mut spec, &types, sum + fee);
+    spec
+}
+
 impl Group for C08Onchain {
     fn property(&self) -> &'static str { "C08" }
     fn model(&self) -> Option<&'static str> { Some("onchain") }
@@ -996,6 +1137,12 @@ impl Group for C08Onchain {
             c("node 333333;0;d;n;-;- 18446744073709551615 u|tx 333333;0;d;n;-;- 1600000000 2 0 1 1 2580000000:w N 1 - W/1/w@1=1000"),
             // max_feerate_per_kw = u32::MAX is a real bound since the exact u128 comparison (fix 3751e9c)
             c("node 4294967295;0;d;n;-;- 18446744073709551615 u|tx 4294967295;0;d;n;-;- 1600000000 2 0 1 1 10000000000000000:w N 1 - W/1/w@1=1000"),
+            // own deposit address on the allowlist / own xpub on the allowlist: credited once (inputs = 2X + fee is refused)
+            c("node 333333;0;d;n;W/1/w;- 1000000000 d|tx 333333;0;d;n;W/1/w;- 1600000000 2 0 1 1 2001000:w N 1 - W/1/w@1=1000000|tx 333333;0;d;n;W/1/w;- 1600000001 2 0 1 1 1001000:w N 1 - W/1/w@1=1000000"),
+            c("node 333333;0;d;n;-;9 1000000000 d|tx 333333;0;d;n;-;9 1600000000 2 0 1 1 2001000:w N 1 - W/1/w@1=1000000|tx 333333;0;d;n;-;9 1600000001 2 0 1 1 1001000:w N 1 - W/1/w@1=1000000"),
+            // channel funding + unknown destination + non-segwit input through the approving approver: refused;
+            // with a segwit input: reported, approved, signed; declining approver: declined
+            c("node 333333;0;d;n;-;- 1000000000 d|tx 333333;0;d;n;-;- 1600000000 2 1 0 1 5001000:s N 3 2:3000000:1:0:1 W/1/w@1=1500000,F/21/w@-=500000,C0@-=3000000|tx 333333;0;d;n;-;- 1600000001 2 1 1 1 5001000:w N 3 2:3000000:1:0:1 W/1/w@1=1500000,F/21/w@-=500000,C0@-=3000000|tx 333333;0;d;n;-;- 1600000002 2 2 1 1 5001000:w N 3 2:3000000:1:0:1 W/1/w@1=1500000,F/21/w@-=500000,C0@-=3000000"),
             // unknown output next to a wallet output, through the approver (declines)
             c("node 333333;0;d;n;F/1/w;- 1000000000 d|tx 333333;0;d;n;F/1/w;- 1600000000 2 2 1 1 100000:w N 3 - W/1/w@1=50000,F/2/w@-=20000,F/1/w@-=29000"),
             // inbound / pushed / not yet counter-signed channels
@@ -1034,7 +1181,7 @@ impl Group for C08Onchain {
                         if tr.script_allow { 1 } else { 0 }, tr.xpub, ch)
                 }).collect();
                 Some(format!("tx {} {} {} {} {} {} {} {} {} {} {} {} {} {}",
-                    if spec.ap == 0 { 0 } else { 1 }, spec.cfg.max_feerate, if spec.cfg.dev { 1 } else { 0 }, bits, spec.now,
+                    spec.ap.min(2), spec.cfg.max_feerate, if spec.cfg.dev { 1 } else { 0 }, bits, spec.now,
                     spec.version as u32, d.base_size(), d.weight().to_wu(), spec.n_in,
                     if spec.segwit.is_empty() { "-".to_string() } else { spec.segwit.iter().map(|b| if *b { '1' } else { '0' }).collect() },
                     j(spec.prev.iter().map(|(v, _)| v.to_string()).collect(), ","),
@@ -1043,7 +1190,21 @@ impl Group for C08Onchain {
         }
     }
     fn gen_case(&self, rng: &mut Rng, tier: Tier) -> Vec<String> {
-        let cfg = gen_cfg(rng);
+        let mut cfg = gen_cfg(rng);
+        // the operator allowlisted one of the node's own deposit addresses / the node's own account xpub
+        if rng.chance(1, 4) {
+            if rng.chance(1, 2) {
+                for _ in 0..rng.range(1, 3) {
+                    cfg.allow.push(Desc::W(vec![rng.below(6) as u32], *rng.pick(&['w', 's', 't'])).to_string());
+                }
+                cfg.allow.sort();
+                cfg.allow.dedup();
+            } else {
+                cfg.xpubs.push(OWN_XPUB);
+                cfg.xpubs.sort();
+                cfg.xpubs.dedup();
+            }
+        }
         let (limit, ty) = match rng.below(8) {
             0 => (5_000_000u64, "h"),
             1 => (100_000, "d"),
@@ -1057,7 +1218,12 @@ impl Group for C08Onchain {
         let mut now = 1_600_000_000u64 + rng.below(100_000);
         for _ in 0..n {
             now += match rng.below(5) { 0 => 0, 1 => rng.below(300), 2 => 3600, 3 => 86_400, _ => rng.below(4000) };
-            ops.push(gen_tx(rng, &cfg, now).to_line());
+            let spec = match rng.below(8) {
+                0 => gen_flow_tx(rng, &cfg, now),
+                1 | 2 => gen_dual_tx(rng, &cfg, now).unwrap_or_else(|| gen_tx(rng, &cfg, now)),
+                _ => gen_tx(rng, &cfg, now),
+            };
+            ops.push(spec.to_line());
         }
         ops
     }
